@@ -182,6 +182,15 @@ func App(name string, s *Sort, args ...*Term) *Term {
 	return mk("app", s, name, nil, [2]int{}, args...)
 }
 
+// AppC applies a commutative binary symbol: the arguments are kept in a
+// canonical order, also under substitution.
+func AppC(name string, s *Sort, a, b *Term) *Term {
+	if a.ID > b.ID {
+		a, b = b, a
+	}
+	return mk("app", s, name, nil, [2]int{1, 0}, a, b)
+}
+
 func (t *Term) IsConst() bool { return t.Op == "bvconst" || t.Op == "intconst" || t.Op == "true" || t.Op == "false" }
 func (t *Term) IsTrue() bool  { return t.Op == "true" }
 func (t *Term) IsFalse() bool { return t.Op == "false" }
@@ -348,6 +357,24 @@ func Eq(a, b *Term) *Term {
 			return Not(a)
 		}
 	}
+	// concat(hi, lo) == const  splits into two equalities
+	if a.S.K == KBV {
+		x, c := a, b
+		if x.Op == "bvconst" {
+			x, c = b, a
+		}
+		if c.Op == "bvconst" && x.Op == "concat" {
+			lw := x.Args[1].S.W
+			return And(Eq(x.Args[0], Extract(c, a.S.W-1, lw)), Eq(x.Args[1], Extract(c, lw-1, 0)))
+		}
+		if c.Op == "bvconst" && x.Op == "zero_extend" {
+			iw := x.Args[0].S.W
+			if Extract(c, a.S.W-1, iw).C.Sign() != 0 {
+				return False
+			}
+			return Eq(x.Args[0], Extract(c, iw-1, 0))
+		}
+	}
 	if a.ID > b.ID {
 		a, b = b, a
 	}
@@ -472,6 +499,28 @@ func bvbin(op string, a, b *Term) *Term {
 		if a == b {
 			return a
 		}
+		// x & (2^k - 1)  =  0…0 ++ x[k-1:0]
+		{
+			x, c := a, b
+			if x.Op == "bvconst" {
+				x, c = b, a
+			}
+			if c.Op == "bvconst" && c.C.Sign() != 0 {
+				// contiguous mask covering bits [h:l]
+				h := c.C.BitLen() - 1
+				l := int(c.C.TrailingZeroBits())
+				if new(big.Int).Rsh(c.C, uint(l)).Cmp(mask(h-l+1)) == 0 && !(h == w-1 && l == 0) {
+					r := Extract(x, h, l)
+					if l > 0 {
+						r = Concat(r, BVU(0, l))
+					}
+					if h < w-1 {
+						r = Concat(BVU(0, w-1-h), r)
+					}
+					return r
+				}
+			}
+		}
 	case "bvshl", "bvlshr", "bvashr":
 		if zero(b) {
 			return a
@@ -490,7 +539,12 @@ func bvbin(op string, a, b *Term) *Term {
 				return Concat(Extract(a, w-k-1, 0), BVU(0, k))
 			case "bvlshr":
 				return Concat(BVU(0, k), Extract(a, w-1, k))
+			case "bvashr":
+				return SignExt(Extract(a, w-1, k), k)
 			}
+		}
+		if b.Op == "bvconst" && op == "bvashr" && b.C.Cmp(big.NewInt(int64(w))) >= 0 {
+			return SignExt(Extract(a, w-1, w-1), w-1)
 		}
 	case "bvmul":
 		if zero(a) || zero(b) {
@@ -563,6 +617,12 @@ func bvcmp(op string, a, b *Term) *Term {
 	if op == "bvult" && b.Op == "bvconst" && b.C.Sign() == 0 {
 		return False
 	}
+	if op == "bvult" && a.Op == "bvconst" && a.C.Sign() == 0 {
+		return Not(Eq(b, a))
+	}
+	if op == "bvule" && b.Op == "bvconst" && b.C.Sign() == 0 {
+		return Eq(a, b)
+	}
 	if op == "bvule" && a.Op == "bvconst" && a.C.Sign() == 0 {
 		return True
 	}
@@ -596,6 +656,7 @@ func Extract(a *Term, hi, lo int) *Term {
 		if lo >= lw {
 			return Extract(a.Args[0], hi-lw, lo-lw)
 		}
+		return Concat(Extract(a.Args[0], hi-lw, 0), Extract(a.Args[1], lw-1, lo))
 	}
 	if a.Op == "zero_extend" {
 		iw := a.Args[0].S.W
@@ -605,6 +666,17 @@ func Extract(a *Term, hi, lo int) *Term {
 		if lo >= iw {
 			return BVU(0, hi-lo+1)
 		}
+		return ZeroExt(Extract(a.Args[0], iw-1, lo), hi-iw+1)
+	}
+	if a.Op == "sign_extend" {
+		iw := a.Args[0].S.W
+		if hi < iw {
+			return Extract(a.Args[0], hi, lo)
+		}
+		if lo >= iw {
+			return SignExt(Extract(a.Args[0], iw-1, iw-1), hi-lo)
+		}
+		return SignExt(Extract(a.Args[0], iw-1, lo), hi-iw+1)
 	}
 	return mk("extract", BV(hi-lo+1), "", nil, [2]int{hi, lo}, a)
 }
@@ -618,6 +690,20 @@ func Concat(hi, lo *Term) *Term {
 	// concat(extract(x,h,m+1), extract(x,m,l)) = extract(x,h,l)
 	if hi.Op == "extract" && lo.Op == "extract" && hi.Args[0] == lo.Args[0] && hi.P[1] == lo.P[0]+1 {
 		return Extract(hi.Args[0], hi.P[0], lo.P[1])
+	}
+	// replication of lo's top bit above lo is a sign extension
+	if hx, ht, ok := replicatedBit(hi); ok {
+		if lx, lt := topBit(lo); lx == hx && lt == ht {
+			return SignExt(lo, hi.S.W)
+		}
+	}
+	// zeros above a term are a zero extension
+	if hi.Op == "bvconst" && hi.C.Sign() == 0 {
+		return ZeroExt(lo, hi.S.W)
+	}
+	// concat(zero_extend(a), b) = zero_extend(concat(a, b))
+	if hi.Op == "zero_extend" {
+		return ZeroExt(Concat(hi.Args[0], lo), hi.P[0])
 	}
 	return mk("concat", BV(hi.S.W+lo.S.W), "", nil, [2]int{}, hi, lo)
 }
@@ -641,6 +727,9 @@ func SignExt(a *Term, n int) *Term {
 	}
 	if a.Op == "bvconst" {
 		return BVC(signed(a.C, a.S.W), a.S.W+n)
+	}
+	if a.Op == "sign_extend" {
+		return SignExt(a.Args[0], n+a.P[0])
 	}
 	return mk("sign_extend", BV(a.S.W+n), "", nil, [2]int{n, 0}, a)
 }
@@ -871,6 +960,9 @@ func Rebuild(t *Term, a []*Term) *Term {
 		return Forall(a[:t.P[0]], a[t.P[0]])
 	case "exists":
 		return Exists(a[:t.P[0]], a[t.P[0]])
+	}
+	if t.Op == "app" && t.P[0] == 1 && len(a) == 2 {
+		return AppC(t.Name, t.S, a[0], a[1])
 	}
 	return mk(t.Op, t.S, t.Name, t.C, t.P, a...)
 }
